@@ -42,6 +42,28 @@ fn replay(path: &str) {
     if name == "worker-crash" {
         std::process::exit(crash_replay(&v));
     }
+    if name == "chain" {
+        let out = std::env::temp_dir().join(format!("chain-replay-{}.json", std::process::id())).display().to_string();
+        let n = v["n"].as_u64().unwrap_or(2000).to_string();
+        match vcommon::child_status(&["--chain-child".into(), n.clone(), out.clone()], std::time::Duration::from_secs(600)) {
+            Ok(s) if s.success() => {
+                let part: vcommon::SubResult = serde_json::from_slice(&std::fs::read(&out).unwrap()).unwrap();
+                let _ = std::fs::remove_file(&out);
+                for v in &part.violations {
+                    println!("REPRODUCED {}: {}", v.key, v.desc);
+                }
+                std::process::exit(if part.violations.is_empty() { 0 } else { 1 });
+            }
+            Ok(s) => {
+                println!("REPRODUCED crash: a chain of {n} look-ups ended the process with {s}");
+                std::process::exit(1)
+            }
+            Err(e) => {
+                println!("REPRODUCED hang: {e}");
+                std::process::exit(1)
+            }
+        }
+    }
     if name == "c05_fs" {
         std::process::exit(c05fs::replay(&v));
     }
@@ -93,6 +115,10 @@ fn main() {
     let raw: Vec<String> = std::env::args().collect();
     if raw.len() == 4 && raw[1] == "--hist-child" {
         c08::hist_child(&raw[2], &raw[3]);
+        return;
+    }
+    if raw.len() == 4 && raw[1] == "--chain-child" {
+        c08::chain_child(raw[2].parse().expect("n"), &raw[3]);
         return;
     }
     if raw.len() >= 3 && raw[1] == "--explore" {
